@@ -1,6 +1,7 @@
 import Wayfind.Proofs.Reachable
 import Wayfind.Proofs.FindDelete
 import Wayfind.Proofs.InsShp
+import Wayfind.Proofs.Registry11
 
 /-! # C10 — failed calls change nothing; insert followed by delete is the identity
 `C10_insert_error_atomic`: a failing `insert` leaves the router state untouched (in the model a failing insert returns
@@ -8,9 +9,9 @@ no state at all; the step function keeps the old one). `C10_delete_validation_at
 after all three validation steps (parse, mismatch scan, not-found scan) have passed. `C10_roundtrip_lookup`: inserting
 a new route and deleting it again restores every lookup of the tree (through radix split and merge) and hands back
 what was inserted.
-Status: **partial** — that the late `NotFound` of `delete` (after the mutation) is unreachable needs the
-reference-count invariant; restoring the *printed* tree needs canonical-tree uniqueness. Both are tied by the FUN
-oracle (same live set ⇒ same drawing and results) over detours and failing calls in every history. -/
+Status: proved for every search result, for histories whose inserted templates have pairwise different expansions.
+Restoring the *printed* tree needs canonical-tree uniqueness and is tied by the FUN oracle (same live set ⇒ same
+drawing) over detours and failing calls in every history; clones are the subject of C16. -/
 
 theorem C10_insert_error_atomic (r : Router) (t : Bytes) (d : Nat) (e : InsertErr) (h : r.insert t d = .error e) :
     r.step (.insert t d) = r := by
@@ -49,3 +50,15 @@ theorem C10_roundtrip_lookup (n : Node) (P Q : List Part) (i : Info) (hS : Node.
   by_cases hq : Q = P
   · subst hq; simp [hnew]
   · simp [hq]
+
+/-- **On live templates.** A `delete` that returns an error — malformed template, mismatch, not found, including the
+late not-found after the loop — has changed nothing (the late not-found is unreachable: reference counts are exact). -/
+theorem C10_delete_error_atomic (r : Router) (L : List LiveT) (h : Live r L) (t : Bytes) (e : DeleteErr)
+    (he : (r.delete t).1 = .error e) : (r.delete t).2 = r :=
+  delete_error_atomic h t e he
+
+/-- after a successful `insert(t, d)`, `delete(t)` returns `d` and every search answers as before the insert -/
+theorem C10_insert_then_delete_is_identity (env : Env) (r r' : Router) (L : List LiveT) (h : Live r L) (t : Bytes) (d : Nat)
+    (hi : r.insert t d = .ok r') (ts : List (Bytes × List Part)) (hp : parseTemplates t = .ok ts) (hd : DistinctExps ts) :
+    (r'.delete t).1 = .ok d ∧ ∀ path, (r'.delete t).2.search env path = r.search env path :=
+  insert_delete_roundtrip env h hi ts hp hd
